@@ -1,3 +1,442 @@
-(* C20 — placeholder, filled below *)
-From Coq Require Import List ZArith Bool.
-Require Import C20.Model.
+(* C20 — utility kernels equal their dense definitions.
+   ONLY theorem statements (the proof obligations the harness counts); each is closed by `exact`/`apply` of a lemma
+   of Proofs*.v about the transcribed kernels of Model.v / ModelQR.v.
+
+   Conventions (see Model.v): ring Z; a tensor is a shape and an index function, both LAST DIMENSION FIRST
+   (torch shape (b1, b2, m, n) is [n; m; b2; b1] and entry [x1, x2, i, j] is `tat t [j; i; x2; x1]`), so a batch index is
+   the tail `b` of a multi-index, `bcast_ix s b` reads a batch of shape `s` at the broadcast position `b`, and every
+   theorem below quantifies over ALL sizes n and ALL batch shapes (lists of any length). *)
+From Coq Require Import List ZArith Bool Arith Lia.
+Import ListNotations.
+Require Import C20.Model C20.ProofsBase C20.ProofsToeplitz C20.ProofsPerm C20.ProofsShape C20.ProofsInterp
+  C20.ProofsSparse C20.ProofsRepeat C20.ProofsToSparse.
+
+(* ------------------------------------------------------------------------------------------------------------ *)
+(* linear_operator/utils/toeplitz.py *)
+
+(* toeplitz(c, r): for every n >= 1 the two fill loops produce exactly T[i,j] = c[i-j] (i >= j), r[j-i] (i < j),
+   whatever torch.empty contained *)
+Theorem C20_toeplitz_fill : forall g c r n,
+  1 <= n -> tshape c = [n] -> tshape r = [n] -> tat c [0] = tat r [0] ->
+  exists t, toeplitz g c r = Ok t /\ tshape t = [n; n] /\
+            forall i j, i < n -> j < n -> tat t [j; i] = Tspec (vec c) (vec r) i j.
+Proof. exact toeplitz_correct. Qed.
+
+Theorem C20_sym_toeplitz_fill : forall g c n,
+  1 <= n -> tshape c = [n] ->
+  exists t, sym_toeplitz g c = Ok t /\ tshape t = [n; n] /\
+            forall i j, i < n -> j < n -> tat t [j; i] = vec c (if j <=? i then i - j else j - i).
+Proof. exact sym_toeplitz_correct. Qed.
+
+(* the guards of toeplitz(): not vectors, T[0,0] ambiguous, different lengths -> raises *)
+Theorem C20_toeplitz_guards : forall g c r,
+  (ndim c <> 1 \/ ndim r <> 1 \/ tat c [0] <> tat r [0] \/ dim0 c <> dim0 r) -> toeplitz g c r = Err.
+Proof. exact toeplitz_raises. Qed.
+
+Theorem C20_toeplitz_getitem : forall c r n i j,
+  tshape c = [n] -> tshape r = [n] -> i < n -> j < n ->
+  toeplitz_getitem c r (Z.of_nat i) (Z.of_nat j) = Ok (Tspec (vec c) (vec r) i j).
+Proof. exact toeplitz_getitem_correct. Qed.
+
+Theorem C20_sym_toeplitz_getitem : forall c n i j,
+  tshape c = [n] -> i < n -> j < n ->
+  sym_toeplitz_getitem c (Z.of_nat i) (Z.of_nat j) = Ok (vec c (if j <=? i then i - j else j - i)).
+Proof. exact sym_toeplitz_getitem_correct. Qed.
+
+(* the circulant embedding: the circular convolution of [c ; reversed r[1:]] with the zero-padded column x,
+   restricted to the first n entries, is the Toeplitz product (all n >= 1; length 2n - 1) *)
+Theorem C20_circulant_embedding : forall n (cf rf x : nat -> Z) i, 1 <= n -> i < n ->
+  zsum (2 * n - 1) (fun k => (crr n cf rf ((i + (2 * n - 1) - k) mod (2 * n - 1))%nat * (if (k <? n)%nat then x k else 0))%Z)
+  = zsum n (fun k => (Tspec cf rf i k * x k)%Z).
+Proof. exact circ_toeplitz. Qed.
+
+(* toeplitz_matmul(c, r, M), matrix right-hand side, ANY batch shapes tb of (c, r) and mb of M that broadcast to bc:
+   out[b, i, j] = sum_k T_b[i, k] * M_b[k, j] with T_b the Toeplitz matrix of batch member b (broadcast) *)
+Theorem C20_toeplitz_matmul_matrix : forall vec_ok c r M n p tb mb bc,
+  1 <= n ->
+  tshape c = n :: tb -> tshape r = n :: tb -> tshape M = p :: n :: mb ->
+  broadcast_shapes tb mb = Some bc ->
+  (forall b, valid b tb -> tat c (0 :: b) = tat r (0 :: b)) ->
+  exists out, toeplitz_matmul vec_ok c r M = Ok out /\ tshape out = p :: n :: bc /\
+    forall j i b, j < p -> i < n -> valid b bc ->
+      tat out (j :: i :: b) =
+      zsum n (fun k => (Tspec (fun d => tat c (d :: bcast_ix tb b)) (fun d => tat r (d :: bcast_ix tb b)) i k
+                        * tat M (j :: k :: bcast_ix mb b))%Z).
+Proof. exact toeplitz_matmul_matrix_correct. Qed.
+
+(* the documented 1-D right-hand side, repaired code (proposed_fixes/C20-toeplitz-matmul-vector.diff) *)
+Theorem C20_toeplitz_matmul_vector : forall c r x n tb,
+  1 <= n ->
+  tshape c = n :: tb -> tshape r = n :: tb -> tshape x = [n] ->
+  (forall b, valid b tb -> tat c (0 :: b) = tat r (0 :: b)) ->
+  exists out, toeplitz_matmul true c r x = Ok out /\ tshape out = n :: tb /\
+    forall i b, i < n -> valid b tb ->
+      tat out (i :: b) =
+      zsum n (fun k => (Tspec (fun d => tat c (d :: b)) (fun d => tat r (d :: b)) i k * tat x [k])%Z).
+Proof. exact toeplitz_matmul_vector_correct. Qed.
+
+(* KNOWN FINDING C20-toeplitz-matmul-vector: the pinned code rejects every 1-D right-hand side *)
+Theorem C20_toeplitz_matmul_vector_refuted : exists c r x,
+  tshape c = [3] /\ tshape r = [3] /\ tshape x = [3] /\ tat c [0] = tat r [0] /\
+  toeplitz_matmul false c r x = Err /\ toeplitz_matmul true c r x <> Err.
+Proof.
+  exists (of_flat [3] [1; 2; 3]%Z), (of_flat [3] [1; 4; 5]%Z), (of_flat [3] [1; 0; 2]%Z).
+  repeat split; try reflexivity. vm_compute. discriminate.
+Qed.
+
+Theorem C20_sym_toeplitz_matmul_matrix : forall vec_ok c M n p tb mb bc,
+  1 <= n -> tshape c = n :: tb -> tshape M = p :: n :: mb -> broadcast_shapes tb mb = Some bc ->
+  exists out, sym_toeplitz_matmul vec_ok c M = Ok out /\ tshape out = p :: n :: bc /\
+    forall j i b, j < p -> i < n -> valid b bc ->
+      tat out (j :: i :: b) =
+      zsum n (fun k => (tat c ((if k <=? i then i - k else k - i)%nat :: bcast_ix tb b) * tat M (j :: k :: bcast_ix mb b))%Z).
+Proof. exact sym_toeplitz_matmul_matrix_correct. Qed.
+
+(* guards of toeplitz_matmul: T[0,0] ambiguous in ANY (broadcast) batch member, wrong number of rows -> raises *)
+Theorem C20_toeplitz_matmul_guard_c0 : forall vec_ok c r M n p tb mb bc b,
+  tshape c = n :: tb -> tshape r = n :: tb -> tshape M = p :: n :: mb ->
+  broadcast_shapes tb mb = Some bc -> valid b bc ->
+  tat c (0 :: bcast_ix tb b) <> tat r (0 :: bcast_ix tb b) ->
+  toeplitz_matmul vec_ok c r M = Err.
+Proof. exact toeplitz_matmul_c0_ne_r0_raises. Qed.
+
+Theorem C20_toeplitz_matmul_guard_rows : forall vec_ok c r M n n' p tb mb,
+  tshape c = n :: tb -> tshape r = n :: tb -> tshape M = p :: n' :: mb -> n <> n' ->
+  toeplitz_matmul vec_ok c r M = Err.
+Proof. exact toeplitz_matmul_rows_raises. Qed.
+
+(* non-vacuity: a batched, broadcasting instance satisfies the hypotheses of C20_toeplitz_matmul_matrix *)
+Example C20_toeplitz_matmul_nonvacuous :
+  let c := of_flat [3; 2] [1; 2; 3; 4; 5; 6]%Z in let r := of_flat [3; 2] [1; 7; 8; 4; 9; 0]%Z in
+  let M := of_flat [2; 3; 1; 3] (map Z.of_nat (seq 0 18)) in
+  broadcast_shapes [2] [1; 3] = Some [2; 3] /\ (forall b, valid b [2] -> tat c (0 :: b) = tat r (0 :: b)) /\
+  match toeplitz_matmul false c r M with Ok out => tshape out = [2; 3; 2; 3] /\ tat out [1; 2; 0; 1] = 50%Z | Err => False end.
+Proof.
+  split; [reflexivity|]. split.
+  - intros [|b0 [|b1 b]]; simpl; try tauto. intros [H _]. destruct b0 as [|[|b0]]; try lia; reflexivity.
+  - vm_compute. split; reflexivity.
+Qed.
+
+(* ------------------------------------------------------------------------------------------------------------ *)
+(* linear_operator/utils/permutation.py *)
+
+(* inverse_permutation: for EVERY batch of permutations of {0..n-1} (any n, any batch shape) the scatter result is
+   the two-sided inverse: inv[perm[k]] = k and perm[inv[i]] = i in every batch member *)
+Theorem C20_inverse_permutation : forall perm n bs,
+  is_perm_batch perm n bs ->
+  exists inv, inverse_permutation perm = Ok inv /\ tshape inv = n :: bs /\
+    (forall k b, k < n -> valid b bs -> tat inv (prow perm b k :: b) = Z.of_nat k) /\
+    (forall i b, i < n -> valid b bs -> (0 <= tat inv (i :: b) < Z.of_nat n)%Z /\ prow perm b (idx_at inv (i :: b)) = i).
+Proof. exact inverse_permutation_correct. Qed.
+
+Theorem C20_inverse_permutation_guard : forall perm n bs ix,
+  tshape perm = n :: bs -> valid ix (n :: bs) -> ~ (0 <= tat perm ix < Z.of_nat n)%Z ->
+  inverse_permutation perm = Err.
+Proof. exact inverse_permutation_raises. Qed.
+
+Example C20_inverse_permutation_nonvacuous :
+  is_perm_batch (of_flat [3; 2] [1; 2; 0; 2; 1; 0]%Z) 3 [2].
+Proof.
+  split; [reflexivity|]. split.
+  - intros k [|b0 [|b1 b]]; simpl; try tauto. intros Hk [Hb _].
+    destruct b0 as [|[|b0]]; try lia; destruct k as [|[|[|k]]]; try lia; vm_compute; split; congruence.
+  - intros [|b0 [|b1 b]]; simpl; try tauto. intros [Hb _] k1 k2 H1 H2.
+    destruct b0 as [|[|b0]]; try lia; destruct k1 as [|[|[|k1]]]; try lia; destruct k2 as [|[|[|k2]]]; try lia;
+      vm_compute; congruence.
+Qed.
+
+(* apply_permutation (left / right / both, full or PARTIAL permutations of any lengths kl, kr, batched and
+   broadcasting): whenever the library returns, entry (b, i, j) of the result is M_b[left_b[i], right_b[j]],
+   i.e. Pi_left K Pi_right^T; a missing permutation acts as arange *)
+Theorem C20_apply_permutation : forall M left right ncols nrows rbatch kl pbl kr pbr out,
+  tshape M = ncols :: nrows :: rbatch ->
+  (left <> None \/ right <> None) ->
+  tshape (perm_or_arange left nrows) = kl :: pbl -> tshape (perm_or_arange right ncols) = kr :: pbr ->
+  apply_permutation M left right = Ok out ->
+  forall j i b, j < kr -> i < kl -> valid (j :: i :: b) (tshape out) ->
+    tat out (j :: i :: b) =
+    tat M (idx_at (perm_or_arange right ncols) (j :: bcast_ix pbr b) ::
+           idx_at (perm_or_arange left nrows) (i :: bcast_ix pbl b) :: bcast_ix rbatch b).
+Proof. exact apply_permutation_value. Qed.
+
+Theorem C20_apply_permutation_none : forall M, apply_permutation M None None = Ok M.
+Proof. exact apply_permutation_none. Qed.
+
+(* ------------------------------------------------------------------------------------------------------------ *)
+(* linear_operator/utils/broadcasting.py *)
+
+(* broadcast_shapes IS torch.broadcast_shapes: align at the last dimension, pad the shorter shape with 1s, every pair of
+   sizes equal or one of them 1, the result takes the other one (all ranks) *)
+Theorem C20_broadcast_shapes_spec : forall a b r,
+  broadcast_shapes a b = Some r <->
+  (length r = Nat.max (length a) (length b) /\
+   forall i, i < length r -> bdim_ok (nth i a 1) (nth i b 1) /\ nth i r 1 = bdim (nth i a 1) (nth i b 1)).
+Proof. exact broadcast_shapes_spec. Qed.
+
+Theorem C20_matmul_broadcast_shape_vector : forall n m abatch p,
+  matmul_broadcast_shape (n :: m :: abatch) [p] = if n =? p then Ok (m :: abatch) else Err.
+Proof. exact matmul_broadcast_shape_vector. Qed.
+
+Theorem C20_matmul_broadcast_shape_matrix : forall n m abatch p n' bbatch r,
+  matmul_broadcast_shape (n :: m :: abatch) (p :: n' :: bbatch) = Ok r <->
+  n = n' /\ exists bc, r = p :: m :: bc /\
+    length bc = Nat.max (length abatch) (length bbatch) /\
+    forall i, i < length bc -> bdim_ok (nth i abatch 1) (nth i bbatch 1) /\ nth i bc 1 = bdim (nth i abatch 1) (nth i bbatch 1).
+Proof. exact matmul_broadcast_shape_matrix. Qed.
+
+Theorem C20_matmul_broadcast_shape_guard : forall a b, length a < 2 \/ b = [] -> matmul_broadcast_shape a b = Err.
+Proof. exact matmul_broadcast_shape_short. Qed.
+
+(* _pad_with_singletons: a view — shape [1]*before + shape + [1]*after, entries and row-major data untouched *)
+Theorem C20_pad_with_singletons : forall t before after,
+  tshape (pad_with_singletons t before after) = repeat 1 after ++ tshape t ++ repeat 1 before /\
+  to_flat (pad_with_singletons t before after) = to_flat t /\
+  forall ix, valid ix (tshape t) ->
+    tat (pad_with_singletons t before after) (repeat 0 after ++ ix ++ repeat 0 before) = tat t ix.
+Proof.
+  intros t before after. split; [apply pad_with_singletons_shape|].
+  split; [apply pad_with_singletons_data|apply pad_with_singletons_correct].
+Qed.
+
+(* ------------------------------------------------------------------------------------------------------------ *)
+(* linear_operator/utils/interpolation.py: left_interp = W x, W[row, k] = sum_q [idx[row, q] = k] vals[row, q]
+   (duplicate indices sum), any number q of coefficients, any sizes, any batch shapes *)
+
+Theorem C20_interp_matrix_form : forall q n idx val (x : nat -> Z),
+  (forall a, a < q -> idx a < n) ->
+  zsum q (fun a => (x (idx a) * val a)%Z) = zsum n (fun k => (Wrow q idx val k * x k)%Z).
+Proof. exact interp_matrix_form. Qed.
+
+Theorem C20_left_interp_vector : forall idx vals rhs q s n,
+  tshape idx = q :: s -> tshape vals = q :: s -> tshape rhs = [n] ->
+  (forall ix, valid ix (q :: s) -> (0 <= tat idx ix < Z.of_nat n)%Z) ->
+  exists out, left_interp idx vals rhs = Ok out /\ tshape out = s /\
+    forall b, valid b s ->
+      tat out b = zsum q (fun a => (tat rhs [idx_at idx (a :: b)] * tat vals (a :: b))%Z).
+Proof. exact left_interp_vector_correct. Qed.
+
+Theorem C20_left_interp_matrix : forall idx vals rhs q r ib c n rb bc,
+  tshape idx = q :: r :: ib -> tshape vals = q :: r :: ib -> tshape rhs = c :: n :: rb ->
+  broadcast_shapes ib rb = Some bc ->
+  (forall ix, valid ix (q :: r :: ib) -> (0 <= tat idx ix < Z.of_nat n)%Z) ->
+  exists out, left_interp idx vals rhs = Ok out /\ tshape out = c :: r :: bc /\
+    forall col row b, col < c -> row < r -> valid b bc ->
+      tat out (col :: row :: b) =
+      zsum q (fun a => (tat rhs (col :: idx_at idx (a :: row :: bcast_ix ib b) :: bcast_ix rb b)
+                        * tat vals (a :: row :: bcast_ix ib b))%Z).
+Proof. exact left_interp_matrix_correct. Qed.
+
+Theorem C20_left_interp_guard : forall idx vals rhs q r ib c n rb ix,
+  tshape idx = q :: r :: ib -> tshape vals = q :: r :: ib -> tshape rhs = c :: n :: rb ->
+  valid ix (q :: r :: ib) -> ~ (0 <= tat idx ix < Z.of_nat n)%Z ->
+  left_interp idx vals rhs = Err.
+Proof. exact left_interp_index_raises. Qed.
+
+(* ------------------------------------------------------------------------------------------------------------ *)
+(* linear_operator/utils/sparse.py, functions/_dsmm.py: a sparse COO tensor is an entry list, duplicates sum
+   (`sdense`); all sizes, all ranks *)
+
+Theorem C20_sparse_eye : forall n i j,
+  sshape (sparse_eye n) = [n; n] /\ swf (sparse_eye n) = true /\
+  tat (sdense (sparse_eye n)) [j; i] = if (i =? j) && (i <? n) then 1%Z else 0%Z.
+Proof. intros n i j. split; [reflexivity|]. split; [apply sparse_eye_wf|apply sparse_eye_correct]. Qed.
+
+(* sparse.mT as used by DSMM.backward: the dense value is the transpose, for every batch *)
+Theorem C20_sparse_mT : forall s j i b,
+  sshape (smT s) = swap01 (sshape s) /\ tat (sdense (smT s)) (j :: i :: b) = tat (sdense s) (i :: j :: b).
+Proof. intros. split; [reflexivity|apply smT_correct]. Qed.
+
+(* torch.dsmm as transcribed (plain branch of bdsmm): the dense matrix product, any entry order, duplicates *)
+Theorem C20_dsmm2 : forall s d n m p,
+  sshape s = [n; m] -> tshape d = [p; n] -> swf s = true ->
+  exists out, dsmm2 s d = Ok out /\ tshape out = [p; m] /\
+    forall j i, tat out [j; i] = zsum n (fun c => (tat (sdense s) [c; i] * tat d [j; c])%Z).
+Proof. exact dsmm2_correct. Qed.
+
+(* one repeated dimension p with the repaired stride: copy k is shifted by k * size *)
+Theorem C20_sparse_repeat_dim : forall s p rep ix,
+  swf s = true -> 1 <= rep -> p < length (sshape s) -> length ix = length (sshape s) ->
+  nth p ix 0 < rep * nth p (sshape s) 0 ->
+  sval (sent (sparse_repeat_dim stride_dense s p rep)) ix =
+  sval (sent s) (upd_nth p (nth p ix 0 mod nth p (sshape s) 0) ix).
+Proof. exact sparse_repeat_dim_value. Qed.
+
+(* sparse_repeat (repaired, proposed_fixes/C20-sparse-repeat-stride.diff) = dense repeat for every rank, every shape
+   and all repeat counts >= 1, with more repeat sizes than dimensions (new leading dimensions):
+   out[ix] = in[ix mod shape] *)
+Theorem C20_sparse_repeat : forall s reps,
+  swf s = true -> length (sshape s) <= length reps -> (forall j, j < length reps -> 1 <= nth j reps 0) ->
+  let n := length (sshape s) in let nd := length reps in
+  let sh0 := sshape s ++ repeat 1 (nd - n) in
+  let r := sparse_repeat stride_dense s reps in
+  length (sshape r) = nd /\ swf r = true /\
+  (forall p, p < nd -> nth p (sshape r) 0 = nth (nd - 1 - p) reps 0 * nth p sh0 0) /\
+  (forall ix, valid ix (sshape r) ->
+     tat (sdense r) ix = tat (sdense s) (firstn n (modfrom 0 ix sh0))).
+Proof. exact sparse_repeat_correct. Qed.
+
+(* the pinned stride coincides with the repaired one whenever only dimensions of size 1 are repeated (how bdsmm
+   uses it) ... *)
+Theorem C20_sparse_repeat_pinned_ok_on_size1 : forall s reps,
+  swf s = true -> length (sshape s) <= length reps -> (forall j, j < length reps -> 1 <= nth j reps 0) ->
+  let n := length (sshape s) in let nd := length reps in
+  let sh0 := sshape s ++ repeat 1 (nd - n) in
+  (forall j, j < nd -> 1 < nth j reps 0 -> nth (nd - 1 - j) sh0 0 = 1) ->
+  sparse_repeat stride_pinned s reps = sparse_repeat stride_dense s reps.
+Proof. exact sparse_repeat_pinned_ok_on_size1. Qed.
+
+(* ... KNOWN FINDING C20-sparse-repeat-stride: and is wrong otherwise: sparse_repeat(diag(1,2), 2, 1) *)
+Theorem C20_sparse_repeat_refuted : exists s reps ix,
+  swf s = true /\ valid ix (sshape (sparse_repeat stride_dense s reps)) /\
+  tat (sdense (sparse_repeat stride_pinned s reps)) ix <> tat (sdense (sparse_repeat stride_dense s reps)) ix.
+Proof.
+  exists (mkS [2; 2] [([0; 0], 1%Z); ([1; 1], 2%Z)]), [2; 1], [0; 1].
+  split; [reflexivity|]. split; [vm_compute; lia|]. vm_compute. discriminate.
+Qed.
+
+(* KNOWN FINDING C20-sparse-repeat-single-int: the pinned argument test rejects a single int repeat count *)
+Theorem C20_sparse_repeat_call : forall stride s r l,
+  sparse_repeat_call false stride s (RVarargs [r]) = Err /\
+  sparse_repeat_call true stride s (RVarargs [r]) = Ok (sparse_repeat stride s [r]) /\
+  (forall b, sparse_repeat_call b stride s (RTuple l) = Ok (sparse_repeat stride s l)).
+Proof. intros. repeat split. Qed.
+
+(* to_sparse(dense) denotes the dense tensor (all ranks, all-zero special case included) *)
+Theorem C20_to_sparse : forall d,
+  0 < numel (tshape d) ->
+  exists s, to_sparse d = Ok s /\ sshape s = tshape d /\ swf s = true /\
+    forall ix, valid ix (tshape d) -> tat (sdense s) ix = tat d ix.
+Proof. exact to_sparse_correct. Qed.
+
+(* ------------------------------------------------------------------------------------------------------------ *)
+(* linear_operator/utils/qr.py, pinverse.py — the transcription ModelQR.v instantiated on an ARBITRARY real field F
+   with an arbitrary threshold thr (the library: 1e-6); `oracle` is torch.linalg.qr (any function: only the stated
+   contract is used); a batch is the list of its members; all sizes n, k and all batch lengths *)
+From mathcomp Require Import all_ssreflect all_algebra.
+Require Import C20.ModelQR C20.ProofsQR.
+Import GRing.Theory Num.Theory.
+Local Open Scope ring_scope.
+
+(* no |R_ii| < thr anywhere in the batch: (Q, R) of the oracle is returned unchanged (any shapes) *)
+Theorem C20_stable_qr_unchanged : forall (F : realFieldType) (thr : F) oracle mats,
+  (forall b, (b < size (oracle mats))%N ->
+     let R := (nth (dQR F) (oracle mats) b).2 in
+     forall i, (i < minn (qnrows R) (qncols R))%N -> ~~ (`|qget (RA thr) R i i| < thr)) ->
+  stable_qr (RA thr) oracle mats = Some (oracle mats).
+Proof. exact: stable_qr_unchanged. Qed.
+
+(* square R (tall or square input): Q untouched, R' = R + thr * sign(R_ii) on EXACTLY the diagonal entries with
+   |R_ii| < thr (sign 0 := 1), member by member although torch.any is global *)
+Theorem C20_stable_qr_jitter_exact : forall (F : realFieldType) (thr : F) oracle mats k,
+  (forall b, (b < size (oracle mats))%N -> qwf k k (nth (dQR F) (oracle mats) b).2) ->
+  exists QR', [/\ stable_qr (RA thr) oracle mats = Some QR', size QR' = size (oracle mats) &
+    forall b, (b < size (oracle mats))%N ->
+      let Q := (nth (dQR F) (oracle mats) b).1 in let R := (nth (dQR F) (oracle mats) b).2 in
+      let Q' := (nth (dQR F) QR' b).1 in let R' := (nth (dQR F) QR' b).2 in
+      [/\ Q' = Q, qwf k k R' &
+          forall i j, (i < k)%N -> (j < k)%N ->
+            qget (RA thr) R' i j = if (i == j) && (`|qget (RA thr) R i i| < thr)
+                         then qget (RA thr) R i i + thr * sgn1 (qget (RA thr) R i i) else qget (RA thr) R i j]].
+Proof. exact: stable_qr_jitter_exact. Qed.
+
+Theorem C20_stable_qr_member_independent : forall (F : realFieldType) (thr : F) oracle mats k QR' b,
+  (forall b, (b < size (oracle mats))%N -> qwf k k (nth (dQR F) (oracle mats) b).2) ->
+  stable_qr (RA thr) oracle mats = Some QR' ->
+  (b < size (oracle mats))%N ->
+  zeroish_free thr k (nth (dQR F) (oracle mats) b).2 ->
+  nth (dQR F) QR' b = nth (dQR F) (oracle mats) b.
+Proof. exact: stable_qr_member_independent. Qed.
+
+(* thr > 0: every diagonal entry of R' is at least thr in absolute value, and an upper-triangular R' is invertible *)
+Theorem C20_stable_qr_diag_bounded : forall (F : realFieldType) (thr : F) oracle mats k QR' b i,
+  0 < thr ->
+  (forall b, (b < size (oracle mats))%N -> qwf k k (nth (dQR F) (oracle mats) b).2) ->
+  stable_qr (RA thr) oracle mats = Some QR' ->
+  (b < size (oracle mats))%N -> (i < k)%N ->
+  thr <= `|qget (RA thr) (nth (dQR F) QR' b).2 i i|.
+Proof. exact: stable_qr_diag_bounded. Qed.
+
+Theorem C20_stable_qr_unit : forall (F : realFieldType) (thr : F) oracle mats k QR' b,
+  0 < thr ->
+  (forall b, (b < size (oracle mats))%N -> qwf k k (nth (dQR F) (oracle mats) b).2) ->
+  stable_qr (RA thr) oracle mats = Some QR' ->
+  (b < size (oracle mats))%N ->
+  upper_tri thr k (nth (dQR F) (oracle mats) b).2 ->
+  upper_tri thr k (nth (dQR F) QR' b).2 /\ mx_of thr k k (nth (dQR F) QR' b).2 \in unitmx.
+Proof. exact: stable_qr_unit. Qed.
+
+(* stable_qr called directly on a FAT matrix (R is k x n, k < n): a near-zero diagonal entry makes
+   `R + diag_embed(jitter)` (k x n plus k x k) raise for k >= 2, and broadcasts the jitter over the row for k = 1 *)
+Theorem C20_stable_qr_fat_raises : forall (F : realFieldType) (thr : F) oracle mats k n b i,
+  (1 < k)%N -> (k < n)%N ->
+  (forall b, (b < size (oracle mats))%N -> qwf k n (nth (dQR F) (oracle mats) b).2) ->
+  (b < size (oracle mats))%N -> (i < k)%N -> `|qget (RA thr) (nth (dQR F) (oracle mats) b).2 i i| < thr ->
+  stable_qr (RA thr) oracle mats = None.
+Proof. exact: stable_qr_fat_raises. Qed.
+
+Theorem C20_stable_qr_fat_row_broadcast : forall (F : realFieldType) (thr : F) oracle mats n b,
+  (1 < n)%N ->
+  (forall b, (b < size (oracle mats))%N -> qwf 1 n (nth (dQR F) (oracle mats) b).2) ->
+  (b < size (oracle mats))%N -> `|qget (RA thr) (nth (dQR F) (oracle mats) b).2 0 0| < thr ->
+  exists QR', [/\ stable_qr (RA thr) oracle mats = Some QR', size QR' = size (oracle mats) &
+    forall c, (c < size (oracle mats))%N ->
+      let R := (nth (dQR F) (oracle mats) c).2 in let R' := (nth (dQR F) QR' c).2 in
+      forall j, (j < n)%N -> qget (RA thr) R' 0 j = qget (RA thr) R 0 j + jit thr (qget (RA thr) R 0 0)].
+Proof. exact: stable_qr_fat_row_broadcast. Qed.
+
+(* torch.linalg.solve_triangular(R, B, upper=True) as transcribed (back substitution reading only the upper
+   triangle): X = triu(R)^-1 B whenever the diagonal has no zero *)
+Theorem C20_solve_triangular_upper : forall (F : realFieldType) (thr : F) n p (R B : qmat F),
+  (0 < n)%N -> qwf n n R -> qwf n p B -> (forall i, (i < n)%N -> qget (RA thr) R i i != 0) ->
+  exists X, [/\ solve_triangular_upper (RA thr) R B = Some X, qwf n p X &
+                mx_of thr n p X = invmx (triu_mx (mx_of thr n n R)) *m mx_of thr n p B].
+Proof. exact: solve_triangular_upper_spec. Qed.
+
+(* stable_pinverse, tall / square input (n x k, k <= n), thr > 0: for every batch member P = R'^-1 Q^T with
+   R' = R + jitter invertible, whatever near-zero diagonal entries the oracle's R has *)
+Theorem C20_stable_pinverse_tall : forall (F : realFieldType) (thr : F) oracle mats n k,
+  0 < thr -> (0 < k)%N -> (k <= n)%N -> (0 < size mats)%N ->
+  (forall b, (b < size mats)%N -> qwf n k (nth [::] mats b)) ->
+  (forall b, (b < size (oracle mats))%N ->
+     [/\ qwf n k (nth (dQR F) (oracle mats) b).1, qwf k k (nth (dQR F) (oracle mats) b).2 &
+         upper_tri thr k (nth (dQR F) (oracle mats) b).2]) ->
+  exists Ps, [/\ stable_pinverse (RA thr) oracle mats = Some Ps, size Ps = size (oracle mats) &
+     forall b, (b < size (oracle mats))%N ->
+       let Q := mx_of thr n k (nth (dQR F) (oracle mats) b).1 in
+       let R' := mx_of thr k k (jittered thr k (nth (dQR F) (oracle mats) b).2) in
+       [/\ qwf k n (nth [::] Ps b), R' \in unitmx & mx_of thr k n (nth [::] Ps b) = invmx R' *m Q^T]].
+Proof. exact: stable_pinverse_tall. Qed.
+
+(* fat input (k x n, k < n): by transposition *)
+Theorem C20_stable_pinverse_fat : forall (F : realFieldType) (thr : F) oracle mats n k,
+  0 < thr -> (0 < k)%N -> (k < n)%N -> (0 < size mats)%N ->
+  (forall b, (b < size mats)%N -> qwf k n (nth [::] mats b)) ->
+  let QR := oracle (List.map (qtranspose (RA thr)) mats) in
+  (forall b, (b < size QR)%N ->
+     [/\ qwf n k (nth (dQR F) QR b).1, qwf k k (nth (dQR F) QR b).2 & upper_tri thr k (nth (dQR F) QR b).2]) ->
+  exists Ps, [/\ stable_pinverse (RA thr) oracle mats = Some Ps, size Ps = size QR &
+     forall b, (b < size QR)%N ->
+       let Q := mx_of thr n k (nth (dQR F) QR b).1 in let R' := mx_of thr k k (jittered thr k (nth (dQR F) QR b).2) in
+       [/\ qwf n k (nth [::] Ps b), R' \in unitmx & mx_of thr n k (nth [::] Ps b) = (invmx R' *m Q^T)^T]].
+Proof. exact: stable_pinverse_fat. Qed.
+
+(* the algebra: A = Q R, Q^T Q = 1, R invertible  ==>  P = R^-1 Q^T is a left inverse, A P = Q Q^T, and P satisfies
+   all four Moore-Penrose conditions, i.e. P is THE pseudo-inverse of A (any field, all sizes) *)
+Theorem C20_pinverse_algebra_tall : forall (F : fieldType) (n k : nat) (A Q : 'M[F]_(n, k)) (R : 'M[F]_k),
+  A = Q *m R -> Q^T *m Q = 1%:M -> R \in unitmx ->
+  let P := invmx R *m Q^T in
+  [/\ P *m A = 1%:M, A *m P = Q *m Q^T &
+      [/\ A *m P *m A = A, P *m A *m P = P, (A *m P)^T = A *m P & (P *m A)^T = P *m A]].
+Proof.
+move=> F n k A Q R hA hQ hR P; split;
+  [exact: pinv_left_inverse | exact: pinv_range_projector | exact: pinv_penrose].
+Qed.
+
+Theorem C20_pinverse_algebra_fat : forall (F : fieldType) (n k : nat) (A : 'M[F]_(k, n)) (Q : 'M[F]_(n, k)) (R : 'M[F]_k),
+  A^T = Q *m R -> Q^T *m Q = 1%:M -> R \in unitmx ->
+  let P := (invmx R *m Q^T)^T in
+  A *m P = 1%:M /\
+  [/\ A *m P *m A = A, P *m A *m P = P, (A *m P)^T = A *m P & (P *m A)^T = P *m A].
+Proof.
+move=> F n k A Q R hA hQ hR P; split; [exact: pinv_fat_right_inverse | exact: pinv_fat_penrose].
+Qed.
